@@ -26,8 +26,15 @@ def install(args):
             if not e.type.is_pyobject and not e.type.is_error and e.type is not PyrexTypes.unspecified_type:
                 maybe_unbound = any(getattr(ref.node, 'cf_maybe_null', False) or getattr(ref.node, 'cf_is_null', False)
                                     for ref in getattr(e, 'cf_references', ()) if hasattr(ref, 'node'))
+                int_into_float = False
+                try:
+                    if e.type.is_float:
+                        int_into_float = any(getattr(a, 'inferred_type', None) is not None and a.inferred_type.is_int
+                                             for a in e.cf_assignments)
+                except Exception:
+                    pass
                 _state['inferred'].append([str(getattr(scope, 'qualified_name', '?')), str(name), str(e.type),
-                                           bool(maybe_unbound)])
+                                           bool(maybe_unbound), bool(int_into_float)])
         return r
 
     cls.infer_types = infer_types
